@@ -270,7 +270,7 @@ func TestC03_Restart(t *testing.T) {
 	c := ev.New("C03", "restart", "exploration")
 	t.Cleanup(c.Flush)
 	c.Rule("histories of 5-60 commands (keyspace commands of every kind, hook/channel commands with META/EX, keyspace writes wrapped in EVAL/EVALNA scripts) issued over 4 connections, optionally with objects that expire during the history; then a quiescent restart — a snapshot of the data directory taken after the last acknowledgement, or a clean stop — must serve dump(before) == dump(after) incl. hooks, channels and has-deadline flags; and the recovered log replayed through the reference model must give the served keyspace. Non-trivial: the history contains at least three of {script write, JSET/JDEL, expiry DEL, hook command, multi-object command}; distinct by command-name sequence.")
-	ev.Rapid("restart", ev.Pick(200, 2500))
+	ev.Rapid("restart", ev.Pick(150, 800))
 	rapid.Check(t, func(rt *rapid.T) {
 		ns := gen.DrawNames(rt)
 		g := rapid.Custom(func(t *rapid.T) []string { return histCmd(t, ns) })
@@ -558,7 +558,7 @@ func TestC03_LogTable(t *testing.T) {
 	}
 	c.Rule("for every case label of (*Server).command (enumerated from the source at run time) x generated arguments on a generated prepared state: execute; if the visible dataset (dump incl. hooks/channels/deadline flags) changed, then appendonly.aof must have grown and a restart on a snapshot of the directory must reproduce the new dataset. Script-wrapped forms (EVAL/EVALNA/EVALRO of every keyspace command) are part of the table. Non-trivial: the command changed the dataset; distinct by (label, argument shape).")
 	var noGen []string
-	perLabel := ev.Pick(12, 150)
+	perLabel := ev.Pick(10, 60)
 	for _, label := range labels {
 		switch label {
 		case "shutdown", "massinsert", "sleep", "monitor", "subscribe", "psubscribe", "aof", "replconf", "slaveof", "evalsha", "evalrosha", "evalnasha", "config", "script", "auth", "timeout", "hello", "quit":
@@ -755,7 +755,7 @@ func TestC03_Crash(t *testing.T) {
 	t.Cleanup(c.Flush)
 	c.Rule("one connection pipelines 20-200 keyspace writes (small alphabet) in 700-byte segments; after a generated number of acknowledgements has been read the data directory is snapshotted while the server keeps running (in-process) or the server subprocess is SIGKILLed; the recovered dataset must equal the reference model after some prefix of the submitted sequence whose length is at least the number of acknowledgements read (acknowledged writes present, unacknowledged ones present or absent, never partially applied). Non-trivial: the crash fell inside the burst (recovered prefix shorter than the whole sequence); distinct by (sequence hash, crash position).")
 	haveBin := t38.ServerBin() != ""
-	ev.Rapid("crash", ev.Pick(120, 1500))
+	ev.Rapid("crash", ev.Pick(100, 600))
 	rapid.Check(t, func(rt *rapid.T) {
 		g := rapid.Custom(func(t *rapid.T) []string {
 			for {
